@@ -67,7 +67,7 @@ fn main() {
         let kidx = (shard + j * nshards + seed as usize) % FSST_KINDS.len();
         let kind = match &forced_kind {
             Some(k) => *FSST_KINDS.iter().find(|x| **x == k.as_str()).unwrap_or(&FSST_KINDS[kidx]),
-            None => FSST_KINDS[kidx],
+            None => fsst_kind_for((kidx + j) as u64),
         };
         let mut rng = Rng::for_case(seed, (1u64 << 40) + (shard * 97 + j) as u64);
         let case = gen_fsst(&mut rng, kind, 0);
